@@ -132,7 +132,8 @@ LEMMAS = [
                             [dict(id='L4_a%d_b%d' % (a, b), pre=['L == 4', 'a == %d' % a, 'b == %d' % b]) for a in range(5) for b in range(5)]}),
     dict(name='L2_resolution_len2', fn='_l2_resolution2', engine='E1', timeout=_T, replay='replay.C03:replay',
          cases={'quick': [dict(id='W1', pre=['W == 1', 'w1 == 0', 'w2 == 0'])] +
-                         [dict(id='W2_k%d_%d' % (k, a), pre=['W == 2', 'w2 == 0', 'k == %d' % k, _rng('w0', 5 * a, 5 * a + 5)]) for k in (0, 1, 2) for a in range(5)],
+                         [dict(id='W2_k%d_%d' % (k, a), pre=['W == 2', 'w2 == 0', 'k == %d' % k, _rng('w0', 5 * a, 5 * a + 5)]) for k in (0, 1, 2) for a in range(5)] +
+                         [dict(id='W3_k%d_w0_%d' % (k, a), pre=['W == 3', 'k == %d' % k, 'w0 == %d' % a, 'w1 <= w2']) for k in (1, 2) for a in (0, 7)],
                 'thorough': [dict(id='W1', pre=['W == 1', 'w1 == 0', 'w2 == 0'])] +
                             [dict(id='W2_k%d_%d' % (k, a), pre=['W == 2', 'w2 == 0', 'k == %d' % k, _rng('w0', 5 * a, 5 * a + 5)]) for k in (0, 1, 2) for a in range(5)] +
                             [dict(id='W3_k%d_%d' % (k, a), pre=['W == 3', 'k == %d' % k, 'w0 == %d' % a]) for k in (1, 2) for a in range(25)]}),
@@ -147,7 +148,7 @@ LEMMAS = [
 PROPERTY = dict(
     functions=['barcodeFileParser.hamming_circle', 'BarcodeParser.addBarcode / expand / getIndexCorrectedBarcodeAndHammingDistance / __getitem__ / '
                'parse_pending_barcode_file_of_alias / parse_barcode_file / path_to_barcode_alias'],
-    bounds={'quick': dict(sphere='every string over ACGTN of length 1..3, distance 0..2', resolution='every whitelist of 1..2 barcodes of length 2 over ACGTN (incl. duplicates, N) x k 0..2 x all 25 queries',
+    bounds={'quick': dict(sphere='every string over ACGTN of length 1..3, distance 0..2', resolution='every whitelist of 1..2 barcodes of length 2 over ACGTN (incl. duplicates, N) x k 0..2 x all 25 queries; three-barcode whitelists with the first barcode AA or CG',
                           lazy='2 lazily loaded aliases, both access orders, via lookup and via parser[alias], k 0..1', formats='1..3 lines, barcode-first / index-first / single column, tab or blank, numeric index from {0,7,400} or named'),
             'thorough': dict(sphere='length 4 too', resolution='+ every whitelist of 3 length-2 barcodes, every pair of length-3 barcodes (15625 whitelists) x k 1..2 x all 125 queries')},
     outside=['barcodes longer than 3 (the sphere lemma + resolution over arbitrary geometry are size-parametric: argument only)', 'letters other than ACGTN', 'the shipped whitelist files (read only by replays)'],
